@@ -397,6 +397,12 @@ def c15(rng):
             tag_ = ' [functions.flags ts_threshold=%d]' % thr_
             out.append((nm_ + ':refund of a 3600 s contract at its deadline' + tag_, [bs(wr_), bs(lk_long)], dict(sf, timestamp=now + 3600), cfg_, thr_ <= 0))
             out.append((nm_ + ':refund of a 5 s contract 25 s ahead of the clock' + tag_, [bs(wr_), bs(lk_short)], dict(sf, timestamp=now + 25), cfg_, thr_ <= 0 or 25 < thr_))
+    # ... and given per call: run_script(witness + lock, additional_flags={'ts_threshold': X})
+    lkp_ = T.make_ptlc_lock(PUBS[rcv], PUBS[ref], timeout=5, sigflags=flh)
+    wrp_ = T.make_ptlc_refund_witness(SEEDS[ref], sf, flh)
+    for thr_ in (10, 300, 0):
+        out.append(('run_script: ptlc refund 25 s ahead of the clock, per-call ts_threshold=%d' % thr_, [bs(wrp_), bs(lkp_)], dict(sf, timestamp=now + 25),
+                    tsh.Cfg(flags={'ts_threshold': thr_}), thr_ <= 0 or 25 < thr_))
     # cross-pairings of the witness kinds with the lock kinds (what each pair must give follows from the exact lock theorems:
     # the model decides, no separate expectation), before and at the deadline, by the receiver and by the refund key
     locks = [(lf.__name__[5:-5], lf(PUBS[rcv], PUBS[ref], preimage=pre, timeout=timeout, sigflags=flh, **kw2)) for lf, _, kw2 in builders]
@@ -444,6 +450,15 @@ def c16(rng):
                     within = thr <= 0 or t - now < thr
                     lock = bs(T.make_timestamp_between_lock(ts, end, False))
                     out.append(('between [now%+d,now%+d) t=now%+d%s' % (d_ts, d_e, d_t, tag), [lock], {'timestamp': t}, cfg, (ts <= t < end) and within, None))
+    # the threshold given per call (additional_flags of run_script) instead of through functions.flags
+    for thr_ in (10, 300, 0):
+        for d_t in (5, 30, 150):
+            within_ = thr_ <= 0 or d_t < thr_
+            cfgp_ = tsh.Cfg(flags={'ts_threshold': thr_})
+            out.append(('run_script: after lock, per-call ts_threshold=%d, t=now+%d' % (thr_, d_t), [bs(T.make_timestamp_after_lock(now - 1, False))],
+                        {'timestamp': now + d_t}, cfgp_, within_, None))
+            out.append(('run_script: between lock, per-call ts_threshold=%d, t=now+%d' % (thr_, d_t), [bs(T.make_timestamp_between_lock(now - 1, now + 1000, False))],
+                        {'timestamp': now + d_t}, cfgp_, within_, None))
     # the lower end of the timestamp domain (absolute values; t = 0 is a timestamp, not "none")
     cfg0 = tsh.Cfg()
     for ts in (0, 1, 2):
@@ -925,6 +940,15 @@ def c17(rng):
                 accepted.append(bit)
         facts.append(('single-bit corruption of %s fails (%d bits tried%s)' % (nm, len(bits), ', accepted with bit(s) %s of %s flipped (bit k = byte k//8, mask 1<<k%%8): OP_CHECK_ADAPTER_SIG on sa=%s R=%s m=%s T=%s X=%s'
                       % (accepted, nm, sa.hex(), R.hex(), m.hex(), Tp.hex(), X.hex()) if accepted else ''), not accepted))
+    # a point with a small-order component (valid curve point, not a valid ed25519 point) in place of T, R or X is refused
+    tors_ = bytes.fromhex('c7176a703d4dd84fba3c0b760d10670f2a2053fa2c39ccc64ec7fd7792ac037a')
+    for nm_, args_ in (('T', lambda q: (sa, R, m, q, X)), ('R', lambda q: (sa, q, m, Tp, X)), ('key', lambda q: (sa, R, m, Tp, q))):
+        base_ = {'T': Tp, 'R': R, 'key': X}[nm_]
+        try:
+            q_ = nb.crypto_core_ed25519_add(base_, tors_)
+            facts.append(('%s with a small-order component added is refused' % nm_, not chk(*args_(q_))))
+        except BaseException:
+            pass
     _, st, _ = F.run_script(gpush(sa) + gpush(R) + gpush(tw) + bytes([F.opcodes_inverse['OP_DECRYPT_ADAPTER_SIG'][0]]))
     s, RT = st.get(), st.get()
 
